@@ -285,6 +285,9 @@ func (h *history) deliveredAlive(e *verifsim.Event) bool {
 	if g == nil {
 		return false
 	}
+	if g.doomT != 0 && e.T >= g.doomT {
+		return false // its teardown had been triggered already
+	}
 	return g.endSeq == 0 || g.endSeq > e.Seq
 }
 
